@@ -42,6 +42,21 @@ class Prop(BaseProp):
         mk = lambda: flag(gen.gen_tree(rng, keys, depth=rng.randint(0, 3), maxar=3, with_p=0.2, flags=False))  # noqa
         a = mk()
         r = rng.random()
+        if r < 0.08:
+            # one operator nested three or four levels over licenses that are all different (nothing to deduplicate or absorb),
+            # possibly below the other operator, against the same licenses in one flat group: associativity only
+            ks = rng.sample(KEYS[:6], rng.randint(3, 5))
+            op = rng.choice(['and', 'or'])
+            leaves = [flag([T('sym'), k, False]) for k in ks]
+            nested = leaves[-1]
+            for x in reversed(leaves[:-1]):
+                nested = [T(op), x, nested] if rng.random() < 0.7 else [T(op), nested, x]
+            flat = [T(op)] + leaves
+            if rng.random() < 0.5:
+                dual = 'or' if op == 'and' else 'and'
+                z = flag([T('sym'), 'zz9', False])
+                nested, flat = [T(dual), z, nested], [T(dual), z, flat]
+            return {'a': nested, 'b': flat, 'a2': nested, 'b2': flat, 'rel': 'rewrite'}
         if r < 0.4:
             b = a
             for _ in range(rng.randint(1, 4)):
